@@ -102,8 +102,16 @@ def r1(ctx, R):
     df = ctx.func("ItemSpaceParent.del_formula")
     for st, t in q.attr_writes(sf, attr="formula", recv="self"):
         n += 1
-        R.inst("ItemSpaceParent.set_formula: `%s` only when no formula was set" % norm(st)[:40])
-        if ("self.formula is None", "T") not in q.guards_of(sf, st):
+        R.inst("ItemSpaceParent.set_formula: `%s` only when no formula is set (any more)" % norm(st)[:40])
+        # on every path to the write either the formula was None or del_formula() ran
+        cfg = sf.cfg
+        dels = set(q.nodes_for(sf, q.calls(sf, name="del_formula", recv="self"))) if q.calls(sf, name="del_formula", recv="self") else set()
+        none_tests = [n_.id for n_ in cfg.nodes if n_.kind == "test" and norm(n_.ast) in ("self.formula is None", "self.formula is not None")]
+        cut = set()
+        for t in none_tests:
+            cut.add((t, "T" if norm(cfg.nodes[t].ast) == "self.formula is None" else "F"))
+        r = cfg.reach([cfg.entry], avoid=dels, avoid_edges=cut)
+        if not none_tests or any(i in r for i in q.nodes_for(sf, st)):
             R.bad(sf, st, "parameter formula replaced while ItemSpaces built from the old one exist")
         ref = [s2 for s2, t2 in q.attr_writes(sf, attr="altfunc", recv="self")]
         if not ref or not q.followed(sf, st, ref, exits=[sf.cfg.exit]):
@@ -113,6 +121,13 @@ def r1(ctx, R):
         R.inst("ItemSpaceParent.del_formula: del_all_itemspaces() before the formula goes")
         if not _dominating_call(df, st, "del_all_itemspaces"):
             R.bad(df, st, "parameter formula deleted while its ItemSpaces stay")
+    R.inst("ItemSpaceParent.set_formula: the new formula is built before the old one is removed")
+    mk = q.calls(sf, name="ParamFunc")
+    dl = q.calls(sf, name="del_formula", recv="self")
+    for m_ in mk:
+        for d_ in dl:
+            if q.path_between(sf, d_, m_):
+                R.bad(sf, m_, "the old parameter formula is deleted before the new one is known to be valid")
     R.inst("ItemSpaceParent.set_formula: replacing goes through del_formula")
     if not q.calls(sf, name="del_formula", recv="self"):
         R.bad(sf, sf.node, "an existing parameter formula is overwritten in place", stmt="del_formula")
